@@ -4,7 +4,7 @@ from __future__ import annotations
 
 import ast
 
-from sa.db import AnalysisError, dotted, src, walk_local
+from sa.db import AnalysisError, bind_args, dotted, src, walk_local
 from sa.variants import Variant, replace_once, sub_first, sub_once
 
 from .c06 import check_executor_returns, check_qualifiers
@@ -27,6 +27,7 @@ NOT_DECIDED = "Equivalence with the inlined graph over all convex cuts — a dif
 
 
 from .common import exposes_selection_else_all as _exposes_selection_else_all  # noqa: E402
+from .common import template_methods  # noqa: E402
 
 
 def run(ctx) -> None:
@@ -62,6 +63,20 @@ def run(ctx) -> None:
     outs = [n for n in walk_local(init.node) if isinstance(n, ast.Assign) and any(src(t) == "self.outputs" for t in n.targets)]
     ok = len(outs) == 1 and _exposes_selection_else_all(db, init, outs[0].value)
     rep.add("C05.R3", f"{gn.qname}:outputs", ok, init.loc(), "wrapper outputs = inner selection if set, else all inner outputs" if ok else "wrapper outputs are not 'graph.selected if set else graph.outputs'")
+    # ... and the nested run is left to that default: the executors of a graph node pass no selection of their own
+    # (a "**" there hands every inner output, selected or not, to the enclosing state under its inner name)
+    run_map_ = set(template_methods(db, "run") + template_methods(db, "map"))
+    n_nested = 0
+    for q in ("runners.sync.executors.graph_node.SyncGraphNodeExecutor.__call__", "runners.async_.executors.graph_node.AsyncGraphNodeExecutor.__call__"):
+        ex = db.func(q)
+        for c, cal in db.callees(ex):
+            if cal.func not in run_map_:
+                continue
+            n_nested += 1
+            sel = bind_args(c, cal.func).get("select")
+            rep.add("C05.R3", f"{ex.qname}:{cal.func.name}:no-own-selection", sel is None, f"{ex.module.rel}:{c.lineno}", "the nested call passes no selection: the inner graph's own selection (else all outputs) applies, exactly what the wrapper advertises" if sel is None else f"the nested {cal.func.name}() is given select={src(sel)}: the inner graph's own select() is overridden, unselected inner values are written into the enclosing state under their inner names and overwrite equally named values there — the nested graph no longer exposes exactly its selected outputs")
+    if n_nested < 4:
+        raise AnalysisError(f"only {n_nested} nested run/map calls found in the graph-node executors")
     rs = db.func("runners._shared.helpers._resolve_select")
     from .common import canon_src
 
@@ -117,6 +132,7 @@ GN = "src/hypergraph/nodes/graph_node.py"
 SG = "src/hypergraph/runners/sync/executors/graph_node.py"
 HP = "src/hypergraph/runners/_shared/helpers.py"
 VARIANTS = [
+    Variant("nested-run-selects-everything", SG, replace_once("            inner_inputs,\n            event_processors=event_processors,\n            _parent_span_id=parent_span_id,\n        )\n        return node.map_outputs_from_original(result.values)", "            inner_inputs,\n            select=\"**\",\n            event_processors=event_processors,\n            _parent_span_id=parent_span_id,\n        )\n        return node.map_outputs_from_original(result.values)"), {"C05.R3"}),
     Variant("wrapper-inputs-required-only", GN, replace_once("        self.inputs = graph.inputs.all", "        self.inputs = graph.inputs.required"), {"C05.R3"}),
     Variant("wrapper-outputs-ignore-selection", GN, replace_once("        exposed = graph.selected if graph.selected is not None else graph.outputs", "        exposed = graph.outputs"), {"C05.R3"}),
     Variant("nested-run-gets-outer-inputs", SG, replace_once("        result = self.runner.run(\n            node.graph,\n            inner_inputs,", "        result = self.runner.run(\n            node.graph,\n            inputs,"), {"C05.R1", "C05.R2"}),
